@@ -64,6 +64,8 @@ struct LookInfo {
     yielded: Vec<SocketAddr>,
     announces: Vec<(SocketAddr, Vec<u8>)>,
     endgame_at: Option<u128>,
+    /// every token an answer under an outstanding id carried, with its source
+    tokens_all: Vec<(SocketAddr, Vec<u8>)>,
     any_sent_ok: bool,
     /// some datagram of the search could not be sent (C02's premise does not hold for it)
     any_send_failed: bool,
@@ -752,7 +754,7 @@ fn check_lookups(c: &mut Ctx, w: &[&str], case: usize, line: usize, st: &mut Sta
             if li.closed_at.is_none() && li.outstanding.contains_key(tid) {
                 accepted_for = Some(sid);
                 li.outstanding.remove(tid);
-                if let Some(t) = &r.token { if t.len() <= 256 { li.tokens.insert((r.id.as_ref().to_vec(), *src), t.clone()); } }
+                if let Some(t) = &r.token { if t.len() <= 256 { li.tokens.insert((r.id.as_ref().to_vec(), *src), t.clone()); li.tokens_all.push((*src, t.clone())); } }
                 for n in if c.v6 { &r.nodes_v6 } else { &r.nodes_v4 } { li.told.insert(n.id.as_ref().to_vec()); }
                 li.accepted_values.extend(r.values.iter().copied());
             }
@@ -804,7 +806,10 @@ fn check_lookups(c: &mut Ctx, w: &[&str], case: usize, line: usize, st: &mut Sta
                     if a.info_hash.as_ref() != li.ih.as_slice() { st.fail(case, line, "[C03] announce_peer for another info-hash"); }
                     if a.id.as_ref() != c.me.as_slice() { st.fail(case, line, "[C02] announce_peer does not carry the node's own id"); }
                     if a.port != c.announce_port { st.fail(case, line, "[C02] announce_peer does not carry the configured port / implied_port"); }
-                    let good = li.tokens.iter().any(|((_, src), tok)| src == dst && *tok == a.token);
+                    // (after a round whose sends failed the code may have given up queries this oracle still counts as
+                    // outstanding: which of a node's tokens was the latest *accepted* one is then not known here)
+                    let good = li.tokens.iter().any(|((_, src), tok)| src == dst && *tok == a.token)
+                        || (li.any_send_failed && li.tokens_all.iter().any(|(src, tok)| src == dst && *tok == a.token));
                     if !good { st.fail(case, line, "[C03] announce_peer to a node that did not answer this search with that (latest) token"); }
                 } else {
                     st.fail(case, line, "[C03] announce_peer that belongs to no search");
